@@ -64,6 +64,7 @@ func main() {
 	exit := 0
 	for _, id := range ids {
 		st := time.Now()
+		globalTermer = newTermer() // every property starts from the same (empty) term memo: verdicts do not depend on which properties ran before
 		c := newCtx(p, id, *tier)
 		c.Explain = props[id].explain
 		c.NotDecided = props[id].notDecided
